@@ -68,7 +68,12 @@ struct FindGlobalConstVars<'a> {
 impl<'a> Visitor<Diagnostic> for FindGlobalConstVars<'a> {
     type Value = ();
     fn visit_var_decl(&mut self, node: &VarDecl) -> Result<Self::Value, Diagnostic> {
-        if node.qualifier == DeclarationQualifier::Constant {
+        // Only a global variable can be referred to by an external variable.
+        // A constant that is local to some other POU can have the same name
+        // without being related.
+        if node.var_type == VariableType::Global
+            && node.qualifier == DeclarationQualifier::Constant
+        {
             match &node.identifier {
                 VariableIdentifier::Symbol(name) => {
                     self.global_consts.insert(name.clone());
